@@ -439,3 +439,5 @@ def run(repo, chk):
     activation_integrity_obligations(repo, chk, "R12.2", "probes with value conditions")
     from .shared import routing_obligations
     routing_obligations(repo, chk, "R12.2", "offer")
+    from .shared import build_precedence_obligations
+    build_precedence_obligations(repo, chk, "R12.3", "a condition written on the outer call (outer(x=1) > inner > x) is checked against the outer variable")
